@@ -142,6 +142,18 @@ def argv_of(buf, v, mode):
     return argv
 
 
+def history_key(case):
+    """second run in one process: a good world and two faulty ones per mode"""
+    if len(case) == 6 and case[0] == 'A1B2c' and case[1] and all(isinstance(s, str) for s in case[1]) and not case[2] and case[4] == 0:
+        bad = [s for s in case[1] if s != 'pass']
+        if bad in ([], ['error'], ['sysexit']) and case[5] in ('seq', 'j2'):
+            return (str(bad), case[3], case[5])
+    return None
+
+
+HISTORY_MAX = 10
+
+
 def run_case(case):
     shape, scripts, lf, buf, v, mode = case
     if shape == 'CWD':
